@@ -11,7 +11,7 @@ import z3
 from contracts.common import *  # noqa
 from contracts import common, symbols_c, compiler_c
 from contracts.symbols_c import *  # noqa
-from contracts.compiler_c import unit_compile_block  # noqa
+from contracts.compiler_c import unit_compile_block, unit_dispatch  # noqa
 from pyvc import driver
 
 ID = "C11"
@@ -87,6 +87,7 @@ def units(tier):
             us.append(("resolve[%s,%s]" % (sp, dn), "unit_resolve", dict(speculative=sp, digit_name=dn)))
     for sh in [("sym",), ("all",), ("bad",), ("sym", "all"), ("all", "sym"), ("sym", "bad", "sym")]:
         us.append((".extern[%s]" % ",".join(sh), "unit_extern", dict(shape=sh)))
+    us.append(("dispatch[variable-of-another-file]", "unit_dispatch", dict(kind="variable-of-another-file")))
     for ctxt in ("file", "repeat"):
         us.append(("compile_block[%s]" % ctxt, "unit_compile_block", dict(context=ctxt, base_settled=False, start_kind="promise")))
     return us
